@@ -416,7 +416,44 @@ func traceToCase(spec *PipeSpec, res *PipeResult, evs []pevent, status string) (
 	if wedged {
 		note(fmt.Sprintf("crawl wedged: %d seed(s) tracked, no event for %d ms", res.TableAtTimeout, res.IdleAtTimeout))
 	}
-	term := fmt.Sprintf("EC %d (Cfg %d false %s) %s %s %s %d %d %s", spec.Workers, spec.MaxRedirect, da, coqList(rowIDs), coqList(out), coqBool(complete), tableEnd, spec.MaxRetry, coqBool(wedged))
+	// the hop bound, end to end: a seed's depth is 0 for a row of the queue and depth(page it was found on) + 1 for an outlink;
+	// the page is identified by the via URL = the URL at which some seed was fetched (the smallest depth among the seeds
+	// fetched there so far, so that the computed depth never exceeds the real hop count). No seed deeper than --max-hops
+	// is ever fetched.
+	depthByID, depthByURL, producedDepth := map[string]int{}, map[string]int{}, map[string]int{}
+	for id := range sidOf {
+		depthByID[id] = 0
+	}
+	hopViol := 0
+	for _, e := range evs {
+		switch e.kind {
+		case "arch.fetch":
+			if len(e.fields) >= 3 && e.fields[0] == e.fields[2] { // the seed's own URL
+				d, ok := depthByID[e.fields[0]]
+				if !ok { // a seed born from an outlink: the queue gives it a new id, its URL is the text that was produced
+					d, ok = producedDepth[e.fields[1]]
+				}
+				if ok {
+					if old, seen := depthByURL[e.fields[1]]; !seen || d < old {
+						depthByURL[e.fields[1]] = d
+					}
+					if d > spec.MaxHops {
+						hopViol++
+						note(fmt.Sprintf("pipe case: seed %s (%s) is %d links away from the queue's rows and was fetched with --max-hops %d", e.fields[0], e.fields[1], d, spec.MaxHops))
+					}
+				}
+			}
+		case "fin.produce":
+			if len(e.fields) >= 3 {
+				if d, ok := depthByURL[e.fields[2]]; ok {
+					if old, seen := producedDepth[e.fields[1]]; !seen || d+1 < old {
+						producedDepth[e.fields[1]] = d + 1
+					}
+				}
+			}
+		}
+	}
+	term := fmt.Sprintf("EC %d (Cfg %d false %s) %s %s %s %d %d %s %d", spec.Workers, spec.MaxRedirect, da, coqList(rowIDs), coqList(out), coqBool(complete), tableEnd, spec.MaxRetry, coqBool(wedged), hopViol)
 	tags := []string{fmt.Sprintf("w:%d", spec.Workers), fmt.Sprintf("mca:%d", spec.MCA), fmt.Sprintf("seeds:%d", len(spec.LQRows)),
 		fmt.Sprintf("passes:%d", bucket(passes)), fmt.Sprintf("nodes:%d", bucket(maxNodes)), fmt.Sprintf("complete:%v", complete)}
 	if status != "" {
@@ -442,6 +479,9 @@ func pipeSpecFromInput(input string, dir string) *PipeSpec {
 		MaxHops: atoi("maxhops", 0), SchedSeed: sched, IdleMs: 700, TimeoutMs: atoi("timeout", 60000), Async: atoi("async", 0) == 1,
 		RateLimit: atoi("rl", 0) == 1, Proxy: atoi("proxy", 0) == 1, OnDisk: atoi("ondisk", 0) == 1, LocalDedupe: atoi("dedupe", 0) == 1,
 		Footprint: atoi("footprint", 0) == 1, HTTPTimeout: atoi("httpto", 0), DiskLowMs: atoi("disklow", 0), TempInJob: atoi("tempjob", 0) == 1}
+	if sp.MaxHops > 0 {
+		sp.IdleMs = 5800 // the queue's producer flushes its batch of outlinks after at most 5 s: quiescence must outlast it
+	}
 	if v, ok := kv["slow"]; ok { // slow=<point>:<ms>
 		if p := strings.SplitN(v, ":", 2); len(p) == 2 {
 			sp.SlowPoint = p[0]
@@ -478,7 +518,7 @@ func pipeSpecFromInput(input string, dir string) *PipeSpec {
 func execPipe(input string) Result {
 	dir, err := os.MkdirTemp("", "zv-pipe-")
 	if err != nil {
-		return Result{Term: "EC 0 (Cfg 0 false false) [] [] false 0 0 false", Tags: []string{"mktemp-failed"}}
+		return Result{Term: "EC 0 (Cfg 0 false false) [] [] false 0 0 false 0", Tags: []string{"mktemp-failed"}}
 	}
 	if os.Getenv("ZV_KEEP") == "" {
 		defer os.RemoveAll(dir)
@@ -517,8 +557,14 @@ func genPipe(r *Rng, i int, tier string) string {
 // fail-then-succeed URLs, assets of assets; all values of max-redirect / max-retry
 func genPipeAdv(r *Rng, i int, tier string) string {
 	retry := []int{0, 1, 1, 2}[r.Intn(4)]
-	return fmt.Sprintf("site=%d w=%d mca=%d sched=%d seeds=%d mr=%d retry=%d mode=adversarial", r.U64()%1000000, 1+r.Intn(3), 1+r.Intn(3), r.U64()%1000,
+	s := fmt.Sprintf("site=%d w=%d mca=%d sched=%d seeds=%d mr=%d retry=%d mode=adversarial", r.U64()%1000000, 1+r.Intn(3), 1+r.Intn(3), r.U64()%1000,
 		1+r.Intn(4), r.Intn(4), retry)
+	if r.Chance(35) {
+		// outlinks travel postprocessor -> finisher -> queue -> reactor and come back as seeds one hop further: the crawl
+		// must stop at the hop limit (every page of the site links on, so without the limit it would not end)
+		s += " maxhops=1"
+	}
+	return s
 }
 
 // genPipeBodies: every site serves bodies around the sniff window and the 2 MiB spool threshold (C02, C04):
